@@ -86,7 +86,7 @@ func (sc *scenario) optionList(url, good string) ([]mcp.ClientOption, string) {
 
 func runOptions(c *hk.Ctx, client string, opts []optSpec, sid string) {
 	cf := cfg{}
-	var jopts []any
+	jopts := []any{}
 	union := []string{} // header keys, first mention first
 	want := map[string][]string{}
 	wantBefore, wantHandler := -1, -1
